@@ -54,9 +54,12 @@ def run(case, prop):
     rich_steps = 0
     refreshes = 0
 
-    def L(n):
-        return led.get(id(n), [])
+    EMPTY = []
 
+    def L(n):
+        return led.get(id(n), EMPTY)
+
+    R.reset_cache()
     try:
         with Session(case) as s:
             try:
